@@ -22,6 +22,8 @@ def plan(tier):
                           setup=("contracts.listing", "setup"), native_ok=True))
 
     def lf(u, label):
+        if label == "all-steps-OK-old-present-target-free-gives-True":
+            return False        # a clause of C09 (results mirror the replies), not of C14's safety statement
         return not label.startswith(("R1.", "callee-precondition."))
 
     pl.label_filter = lf
